@@ -107,12 +107,12 @@ def tensor_with_identities(cx, N, name="R"):
     return R
 
 
-def build_aggregate(cx, nmol=2, mult=1, with_bath=True, coupling=0.01, energies=None):
+def build_aggregate(cx, nmol=2, mult=1, with_bath=True, coupling=0.01, energies=None, Nt=8):
     """concrete Aggregate of two-level molecules (built with the real numpy)"""
     import quantarhei as qr
     with cx.concrete():
         mols = []
-        time = qr.TimeAxis(0.0, 8, 1.0)
+        time = qr.TimeAxis(0.0, Nt, 1.0)
         if with_bath:
             params = dict(ftype="OverdampedBrownian", reorg=20, cortime=100, T=300)
             with qr.energy_units("1/cm"):
